@@ -1,6 +1,7 @@
 import Generated.Facts
 import Proofs.Bufio
 import Proofs.Inbound
+import Proofs.Codec
 /-! # C06 — inbound messages are returned byte-exact under any fragmentation and size
 
 Model: `Model.Rd` (the connection's read side as scripted chunks + the part of
@@ -139,5 +140,69 @@ theorem C06_frame_stable (a b : Bytes) (h : UInt8) (body rest : Bytes)
 
 example : splitFrame [0x40, 0x02, 0x00, 0x01] = .complete 0x40 [0x00, 0x01] [] ∧
     splitFrame ([0x40, 0x02, 0x00, 0x01] ++ [0xd0, 0x00]) = .complete 0x40 [0x00, 0x01] [0xd0, 0x00] := by decide
+
+/-- four continuation bytes in front: the reference decoder refuses, whatever follows -/
+theorem dva4_none (b0 b1 b2 b3 : UInt8) (r : Bytes) (h0 : ¬ b0 < 128) (h1 : ¬ b1 < 128) (h2 : ¬ b2 < 128) (h3 : ¬ b3 < 128) :
+    decodeVarint (b0 :: b1 :: b2 :: b3 :: r) = none := by
+  simp [decodeVarint, decodeVarintAux, h0, h1, h2, h3]
+
+/-- A stream found malformed stays malformed whatever arrives later: the verdict "protocol violation" on the bytes so far is final. -/
+theorem C06_malformed_stable (a b : Bytes) (hm : splitFrame a = .malformed) : splitFrame (a ++ b) = .malformed := by
+  cases a with
+  | nil => simp [splitFrame] at hm
+  | cons x r =>
+    simp only [List.cons_append, splitFrame] at hm ⊢
+    cases hd : decodeVarint r with
+    | some p => rw [hd] at hm; simp only at hm; split at hm <;> simp at hm
+    | none =>
+      rw [hd] at hm; simp only at hm
+      match r, hd, hm with
+      | [], _, hm => simp at hm
+      | [b0], hd, hm =>
+        by_cases h0 : b0 < 128
+        · simp [decodeVarint, decodeVarintAux, h0] at hd
+        · simp [UInt8.not_lt.mp h0] at hm
+      | [b0, b1], hd, hm =>
+        by_cases h0 : b0 < 128
+        · simp [decodeVarint, decodeVarintAux, h0] at hd
+        · by_cases h1 : b1 < 128
+          · simp [decodeVarint, decodeVarintAux, h0, h1] at hd
+          · simp [UInt8.not_lt.mp h0, UInt8.not_lt.mp h1] at hm
+      | [b0, b1, b2], hd, hm =>
+        by_cases h0 : b0 < 128
+        · simp [decodeVarint, decodeVarintAux, h0] at hd
+        · by_cases h1 : b1 < 128
+          · simp [decodeVarint, decodeVarintAux, h0, h1] at hd
+          · by_cases h2 : b2 < 128
+            · simp [decodeVarint, decodeVarintAux, h0, h1, h2] at hd
+            · simp [UInt8.not_lt.mp h0, UInt8.not_lt.mp h1, UInt8.not_lt.mp h2] at hm
+      | b0 :: b1 :: b2 :: b3 :: r', hd, _ =>
+        by_cases h0 : b0 < 128
+        · simp [decodeVarint, decodeVarintAux, h0] at hd
+        · by_cases h1 : b1 < 128
+          · simp [decodeVarint, decodeVarintAux, h0, h1] at hd
+          · by_cases h2 : b2 < 128
+            · simp [decodeVarint, decodeVarintAux, h0, h1, h2] at hd
+            · by_cases h3 : b3 < 128
+              · simp [decodeVarint, decodeVarintAux, h0, h1, h2, h3] at hd
+              · simp only [List.cons_append]
+                rw [dva4_none b0 b1 b2 b3 (r' ++ b) h0 h1 h2 h3]
+                simp
+                intro hlt; omega
+/-- Every cut of a stream that starts with a well-formed packet: on the part received so far the framing says "incomplete"
+or names exactly that packet (same header, same body, the true rest) — never another packet and never "malformed". -/
+theorem C06_cut_verdict (h : UInt8) (body rest a b : Bytes) (hb : body.length ≤ Facts.packetMax)
+    (hs : a ++ b = [h] ++ encodeVarint body.length ++ body ++ rest) :
+    splitFrame a = .incomplete ∨ ∃ r', splitFrame a = .complete h body r' ∧ r' ++ b = rest := by
+  have hw := splitFrame_compose h body rest hb
+  rw [← hs] at hw
+  cases hc : splitFrame a with
+  | incomplete => exact Or.inl rfl
+  | malformed => rw [C06_malformed_stable a b hc] at hw; cases hw
+  | complete h' body' r' =>
+    rw [C06_frame_stable a b h' body' r' hc] at hw
+    simp only [Frame.complete.injEq] at hw
+    exact Or.inr ⟨r', by rw [hw.1, hw.2.1], hw.2.2⟩
+example : splitFrame [0x40, 0x02, 0x00] = .incomplete := by decide
 
 end Model
